@@ -370,13 +370,14 @@ def wild_cubics(rng):
 
 
 def generate(rng, tier):
-    n = 120 if tier == 'quick' else 1500
+    n = 150 if tier == 'quick' else 1800
     nq = 36 if tier == 'quick' else 90
     for k in range(n):
-        kind = ['poly', 'poly-sharp', 'smooth', 'wild'][k % 4]
+        # ten-step cycle; the steps 3, 5 and 7 are replaced by the special strata below ('wild' used to be overridden completely by them)
+        kind = ['poly', 'poly-sharp', 'smooth', 'wild', 'poly', 'poly-sharp', 'smooth', 'wild', 'wild', 'poly-sharp'][k % 10]
         els = {'poly': lambda: polyline(rng, False), 'poly-sharp': lambda: polyline(rng, True), 'smooth': lambda: smooth_chain(rng), 'wild': lambda: wild_cubics(rng)}[kind]()
         short_arm = False
-        if k % 8 == 7:
+        if k % 10 == 7:
             # corner-to-smooth cubics with a retracted handle, thin strokes (the regularisation of the zero-length control arm decides the outline)
             kind = 'retracted'
             p0, c, e = [(rng.uniform(-6, 6), rng.uniform(-6, 6)) for _ in range(3)]
@@ -389,8 +390,28 @@ def generate(rng, tier):
                 short_arm = True
             else:
                 els = [('M', p0), ('C', p0, c, e)] if rng.random() < 0.6 else [('M', p0), ('C', c, e, e)]
+        if k % 10 == 5:
+            # exact reversals of direction (cross product exactly 0, dot < 0): a polyline that retraces a segment (A -> B -> A [-> C]), or an axis-aligned /
+            # exactly collinear cubic that runs past its end point and turns back (handled as a polyline with cusps by do_linear)
+            kind = 'retrace'
+            a = (rng.randint(-20, 20) / 4.0, rng.randint(-20, 20) / 4.0) if rng.random() < 0.5 else (rng.uniform(-5, 5), rng.uniform(-5, 5))
+            b = (a[0] + rng.choice([-1, 1]) * rng.uniform(1, 9), a[1] + rng.choice([-1, 0, 1]) * rng.uniform(1, 9))
+            r = rng.random()
+            if r < 0.55:
+                els = [('M', a), ('L', b), ('L', a)]
+                if rng.random() < 0.6:
+                    els.append(('L', (a[0] + rng.uniform(-6, 6), a[1] + rng.uniform(-6, 6))))
+                if rng.random() < 0.3:
+                    els = [('M', (a[0] + rng.uniform(-6, 6), a[1] + rng.uniform(-6, 6))), ('L', a)] + els[1:]
+            else:
+                # collinear cubic on a horizontal / vertical / dyadic-direction line: parameters along the line 0, u, v, 1 with an overshoot
+                d = rng.choice([(8.0, 0.0), (0.0, 8.0), (4.0, 4.0), (-8.0, 2.0)])
+                u, v = rng.choice([(1.5, -0.5), (1.25, 0.25), (0.5, 1.75), (-0.5, 0.5), (1.5, 1.25)])
+                o = (rng.randint(-20, 20) / 4.0, rng.randint(-20, 20) / 4.0)
+                pt = lambda t: (o[0] + t * d[0], o[1] + t * d[1])
+                els = [('M', pt(0.0)), ('C', pt(u), pt(v), pt(1.0))]
         flat_arm = False
-        if k % 8 == 3:
+        if k % 10 == 3:
             # nearly flat cubics whose first (or last) control arm is under 1 % of the chord - they take the "potentially a cusp" path of do_cubic - and whose
             # control points sit between a few tolerances and sqrt(tolerance) off the chord: not collinear, must be stroked as curves
             kind = 'flat-short-arm'
@@ -406,7 +427,7 @@ def generate(rng, tier):
                 loc = [(L_ - x, y) for x, y in reversed(loc)]
             wpts = [(o_[0] + ca * x - sa * y, o_[1] + sa * x + ca * y) for x, y in loc]
             els = [('M', wpts[0]), ('C', wpts[1], wpts[2], wpts[3])]
-        join, cap = (k // 4) % 3, (k // 12) % 3
+        join, cap = (k // 10) % 3, (k // 30) % 3
         if rng.random() < 0.3:
             join, cap = rng.randint(0, 2), rng.randint(0, 2)
         w = rng.choice([0.05, 0.3]) if kind == 'retracted' else rng.choice([0.05, 0.3, 1.0, 2.5, 10.0]) if kind != 'smooth' else rng.choice([0.05, 0.3, 1.0, 2.0])
